@@ -31,7 +31,7 @@ class Unit:
         self.safetyprops = []
         self.desc = ''
         self.runs = []
-        self.lines = open(path).read().split('\n')
+        self.lines = self._load(path)
         for ln in self.lines:
             if ln.startswith('//@props'):
                 self.props = ln.split()[1:]
@@ -43,6 +43,15 @@ class Unit:
                 self.desc += ln[7:].strip() + ' '
             elif ln.startswith('//@run'):
                 self.runs.append(parse_kv(ln[6:]))
+
+    def _load(self, path):
+        out = []
+        for ln in open(path).read().split('\n'):
+            if ln.startswith('//@include'):
+                out.extend(self._load(os.path.join(CONTRACTS, 'include', ln.split()[1])))
+            else:
+                out.append(ln)
+        return out
 
     def instantiate(self, defs):
         """Produce C text for a set of preprocessor defines.  Returns (text, info)."""
@@ -61,6 +70,25 @@ class Unit:
                     j += 1
                 out.append(self._extract(opts, spec, defs, info))
                 i = j + 1
+                continue
+            if ln.startswith('//@enum'):
+                o = parse_kv(ln[7:])
+                text, n, line = X.extract_enum(X.read_repo(o['file']), o['name'])
+                info['functions'].append(dict(name='enum ' + o['name'], file=o['file'], line=line,
+                                              sha=hashlib.sha1(text.encode()).hexdigest()[:12], rules={'R7.enumdef': n}))
+                out.append(text)
+                i += 1
+                continue
+            if ln.startswith('//@struct'):
+                o = parse_kv(ln[9:])
+                src = X.read_repo(o['file'])
+                cppdefs = [d for d in o.get('cpp', '').split(',') if d] + list(defs)
+                text, names, line = X.extract_struct(src, o['name'], cppdefs)
+                info['functions'].append(dict(name='struct ' + o['name'], file=o['file'], line=line,
+                                              sha=hashlib.sha1(text.encode()).hexdigest()[:12], rules={'R6.fields': len(names)}))
+                info.setdefault('fields', {})[o['name']] = names
+                out.append(text)
+                i += 1
                 continue
             if ln.startswith('//@assume'):
                 info['assumptions'].append(ln[9:].strip())
@@ -101,7 +129,7 @@ class Unit:
         if 'block' in o:
             b, e = o['block'].split('@@')
             blk = X.find_block(src, b, e)
-            text = o['proto'] + '\n' + '\n'.join(contract) + '\n{\n' + blk['text'] + '\n}\n'
+            text = o['proto'] + '\n@@CONTRACT@@\n{\n' + blk['text'] + '\n}\n'
             head, name, params, trailer, body = '', o.get('as', 'block'), '', '', ''
             line = blk['line']
             raw = blk['text']
@@ -172,7 +200,19 @@ class Unit:
             if n < mn:
                 raise X.ExtractError('%s: sub /%s/ fired %d < %d' % (self.name, pat, n, mn))
         nl = 0
-        if fn is not None:
+        macro = ''
+        if fn is not None and o.get('refmacro'):
+            # callers written for reference parameters pass lvalues: F(x) -> F__p(&(x))
+            sig_part = text.split('@@CONTRACT@@', 1)[0]
+            plist = sig_part[sig_part.index('(') + 1: sig_part.rindex(')')]
+            pnames = [re.search(r'(\w+)\s*$', q.strip()).group(1) for q in plist.split(',') if q.strip()]
+            ptrs = set(o.get('byptr', '').split(','))
+            text = re.sub(r'\b' + cname + r'\s*\(', cname + '__p(', text, count=1)
+            margs = ', '.join('a%d' % k for k in range(len(pnames)))
+            mcall = ', '.join(('&(a%d)' % k) if pn in ptrs else ('a%d' % k) for k, pn in enumerate(pnames))
+            macro = '#define %s(%s) %s__p(%s)\n' % (cname, margs, cname, mcall)
+            rw.log['R5.refmacro'] = 1
+        if True:
             sig_part, body_part = text.split('@@CONTRACT@@', 1)
             body_part, nl = X.insert_loop_contracts(body_part, loops)
             text = sig_part + '\n'.join(contract) + body_part
@@ -183,8 +223,8 @@ class Unit:
                                       sha=hashlib.sha1(raw.encode()).hexdigest()[:12], rules=dict(rw.log)))
         info['loops'] += nl
         info['loop_contracts'] += len(loops)
-        return '/* ---- extracted from %s:%d (%s) ---- */\n%s\n/* ---- end extracted ---- */' % (
-            o['file'], line, o.get('func', 'block'), text)
+        return '/* ---- extracted from %s:%d (%s) ---- */\n%s\n%s/* ---- end extracted ---- */' % (
+            o['file'], line, o.get('func', 'block'), text, macro)
 
 
 def parse_kv(s):
